@@ -30,6 +30,7 @@
 #define VP_MAP_CAP 4
 #endif
 #include "vp_slotmap.h"
+extern "C" { unsigned vp_c12_dom_nchildren(const QDomElement *); unsigned vp_c12_dom_nattrs(const QDomElement *); }
 
 #define private public
 #define protected public
@@ -133,34 +134,44 @@ struct RefRoster {
     int size() const { int n = 0; for (int i = 0; i < REF_CAP; i++) { if (used[i]) n++; } return n; }
 };
 
-// symbolic pre-state: <= 2 roster entries with distinct keys (representation invariant: entries[k].bareJid() == k)
+// symbolic pre-state: two fully built roster entries with distinct keys sit in slots 0 and 1; whether each slot is in use
+// is symbolic (so 0, 1 or 2 contacts, including a hole in front).  Building both unconditionally keeps every pointer of
+// the pre-state concrete.  Representation invariant: entries[k].bareJid() == k.
 static void symRoster(QXmppRosterManagerPrivate *d, RefRoster &ref)
 {
-    unsigned n = vp_u8(); vp_assume(n <= 2);
-    for (unsigned i = 0; i < 2; i++) {
-        if (i >= n) break;
-        QString k = vpSymString(3), nm = vpSymString(1);
+    QString k[2];
+    for (int i = 0; i < 2; i++) {
+        k[i] = vpSymString(3); QString nm = vpSymString(1);
         unsigned t = vp_u8(); vp_assume(t <= 4 || t == 8);   // any SubscriptionType value
-        vp_assume(!ref.contains(k));
-        QXmppRosterIq::Item it; it.setBareJid(k); it.setName(nm); it.setSubscriptionType(QXmppRosterIq::Item::SubscriptionType(t));
-        d->entries.insert(k, it);
-        ref.put(k, nm, int(t));
+        QXmppRosterIq::Item it; it.setBareJid(k[i]); it.setName(nm); it.setSubscriptionType(QXmppRosterIq::Item::SubscriptionType(t));
+        new (&d->entries.cell[i].v) QXmppRosterIq::Item(it); d->entries.key[i] = k[i];
+        ref.key[i] = k[i]; ref.name[i] = nm; ref.type[i] = int(t);
     }
+    vp_assume(!(k[0] == k[1]));
+    for (int i = 0; i < 2; i++) { bool u = vp_bool(); d->entries.used[i] = u; ref.used[i] = u; }
     d->isRosterReceived = vp_bool();
 }
+// The view equals the reference iff they agree on every key.  `probe` is an arbitrary string of the maximal key length
+// chosen by the solver, so one comparison at the probe covers all keys (all keys in either map have <= 3 units).
 static void checkRoster(const QXmppRosterManagerPrivate *d, const RefRoster &ref)
 {
-    vp_assert(d->entries.size() == ref.size(), "C12 roster view has exactly the expected number of contacts");
-    for (int i = 0; i < REF_CAP; i++) {
-        if (!ref.used[i]) continue;
-        const QXmppRosterIq::Item *it = d->entries.find(ref.key[i]);
-        vp_assert(it != nullptr, "C12 expected contact is in the roster view");
-        if (it) {
-            vp_assert(it->bareJid() == ref.key[i], "C12 contact is stored under its own bare JID");
-            vp_assert(it->name() == ref.name[i], "C12 contact has the name of the latest authorised item");
-            vp_assert(int(it->subscriptionType()) == ref.type[i], "C12 contact has the subscription of the latest authorised item");
+    const QString probe = vpSymString(3);
+    bool inRef = false, inView = false; QString refName; int refType = -1;
+    for (int i = 0; i < REF_CAP; i++) { if (ref.used[i] && ref.key[i] == probe) { inRef = true; refName = ref.name[i]; refType = ref.type[i]; } }
+    for (int i = 0; i < VP_MAP_CAP; i++) {
+        if (d->entries.used[i] && d->entries.key[i] == probe) {
+            vp_assert(!inView, "C12 a contact appears once in the roster view");
+            inView = true;
+            const QXmppRosterIq::Item &it = d->entries.cell[i].v;
+            vp_assert(inRef, "C12 roster view contains no contact beyond last full roster + authorised pushes");
+            if (inRef) {
+                vp_assert(it.bareJid() == probe, "C12 contact is stored under its own bare JID");
+                vp_assert(it.name() == refName, "C12 contact has the name of the latest authorised item");
+                vp_assert(int(it.subscriptionType()) == refType, "C12 contact has the subscription of the latest authorised item");
+            }
         }
     }
+    vp_assert(inView == inRef, "C12 roster view contains every contact of last full roster + authorised pushes");
 }
 
 // reference sender check (RFC 6121 2.1.6 and the property text): no/empty 'from' (the server, implicitly), or the
@@ -260,3 +271,57 @@ static void pushUnauth(int nitems)
 }
 extern "C" void h_push_unauth_n1() { pushUnauth(1); }
 extern "C" void h_push_unauth_n2() { pushUnauth(2); }
+
+// ------------------------------------------------------------------------------------------------ (2) authorised roster IQ
+// from absent / empty / own bare / own full JID (any resource); any IQ type; items applied in order
+static void pushAuth(bool hasFrom, int nitems)
+{
+    symOwnJid();
+    Mgr m; RefRoster ref;
+    symRoster(m.d, ref);
+    const bool recv = m.d->isRosterReceived;
+    SymIq q; symRosterIq(q, hasFrom, nitems);
+    vp_assume(refAuthorised(q.hasFrom, q.from, g_ownBare));
+    // reference transition + expected notifications
+    int expN = 0; int expKind[2]; QString expArg[2];
+    if (q.isSet) {
+        for (int i = 0; i < 2; i++) {
+            if (i >= nitems) break;
+            const PushItem &pi = q.item[i];
+            if (pi.type == QXmppRosterIq::Item::Remove) {
+                if (ref.remove(pi.jid)) { expKind[expN] = SigRemoved; expArg[expN] = pi.jid; expN++; }
+            } else {
+                const bool had = ref.contains(pi.jid);
+                ref.put(pi.jid, pi.name, pi.type);
+                expKind[expN] = had ? SigChanged : SigAdded; expArg[expN] = pi.jid; expN++;
+            }
+        }
+    }
+    bool r = m->QXmppRosterManager::handleStanza(q.iq);
+    vp_assert(r, "C12 roster IQ from the server / own account is handled (handleStanza returns true)");
+    vp_assert(g_niq == 0, "C12 handling a roster IQ sends no request");
+    if (q.isSet) {
+        vp_assert(g_nsent == 1, "C12 an authorised roster push is acknowledged with exactly one stanza");
+        if (g_nsent == 1) {
+            const QDomElement &a = g_sent[0];
+            vp_assert(a.tagName() == L("iq"), "C12 the acknowledgement is an iq");
+            vp_assert(a.attribute(L("type")) == L("result"), "C12 the acknowledgement has type result");
+            vp_assert(a.attribute(L("id")) == q.id, "C12 the acknowledgement carries the id of the push");
+            vp_assert(vp_c12_dom_nchildren(&a) == 0, "C12 the acknowledgement is an empty result");
+        }
+    } else {
+        vp_assert(g_nsent == 0, "C12 a roster IQ that is not a push (type != set) is not acknowledged");
+    }
+    vp_assert(m.d->isRosterReceived == recv, "C12 a roster push leaves the received flag alone");
+    checkRoster(m.d, ref);
+    vp_assert(g_nsig == expN, "C12 one notification per effective change of an authorised push");
+    for (int i = 0; i < 2; i++) {
+        if (i >= expN || i >= g_nsig) break;
+        vp_assert(g_sigKind[i] == expKind[i], "C12 notification kind matches the change (added / changed / removed), in item order");
+        vp_assert(g_sigA[i] == expArg[i], "C12 notification names the changed contact");
+    }
+}
+extern "C" void h_push_auth_nofrom_n2() { pushAuth(false, 2); }
+extern "C" void h_push_auth_from_n2() { pushAuth(true, 2); }
+extern "C" void h_push_auth_from_n1() { pushAuth(true, 1); }
+extern "C" void h_push_auth_from_n0() { pushAuth(true, 0); }
